@@ -318,6 +318,10 @@ def run(chk, repo, tier):
         def ob(self, clause, *a, **k):
             if clause == 'C04-e':
                 return self.chk.ob(clause, *a, **k)
+
+        def undecided(self, clause, *a, **k):
+            if clause == 'C04-e':
+                return self.chk.undecided(clause, *a, **k)
     contracts(_Only(chk), repo, 'x', 'x', 'x', 'x', clause_conserve='C04-e')
     from .extra_rules import fit_tilt_rules, ptt_mask_rule
     fit_tilt_rules(chk, repo, 'C04-j')
